@@ -40,6 +40,7 @@ SITES = {
     "permute":      ("qutip/core/qobj.py", "Qobj.permute", ("call", 0)),
     "transform":    ("qutip/core/qobj.py", "Qobj.transform", ("call", 0)),
     "tensor_step":  ("qutip/core/tensor.py", "tensor", ("loop",)),
+    "expand_permute": ("qutip/core/tensor.py", "expand_operator", ("call", 0)),
     "spre":         ("qutip/core/superoperator.py", "spre", ("call", 0)),
     "spost":        ("qutip/core/superoperator.py", "spost", ("call", 0)),
     "sprepost":     ("qutip/core/superoperator.py", "sprepost", ("call", 0)),
@@ -74,6 +75,7 @@ ATOMS = {
     "arg._isherm": "fb_h e", "arg._isunitary": "fb_u e",
     "state._isherm": "fa_h e",
     "args[0]._isherm": "fa_h e", "args[0]._isunitary": "fa_u e",
+    "out._isherm": "fa_h e", "out._isunitary": "fa_u e",
 }
 PREDS = {
     "multiplier.imag == 0": "p_real e", "scale.imag == 0": "p_real e",
@@ -103,13 +105,14 @@ DATA_OPS = {
     "_data.identity(self.shape[0], scale, dtype=type(self.data))": "DScaledId",
     "_data.kron_transpose(B.data, A.data)": "DKronT",
 }
-SITE_DATA_OVERRIDE = {"permute": "DPermute", "transform": "DTransform",
+SITE_DATA_OVERRIDE = {"permute": "DPermute", "expand_permute": "DPermute", "transform": "DTransform",
                       "spre": "DKronIdL", "spost": "DKronTIdR",
                       "tensor_step": "DKron", "unit_inplace": "DMul",
                       "solver_state": "DEvolved"}
 # what `data` must have been assigned from, for the overridden sites
 SITE_DATA_SOURCE = {
     "permute": "_data.permute.dimensions(self.data, structure, order)",
+    "expand_permute": "_data.permute.dimensions(out.data, structure, new_order)",
     "spre": "_data.kron(_data.identity_like(A.data), A.data)",
     "spost": "_data.kron_transpose(A.data, _data.identity_like(A.data))",
     "tensor_step": "_data.kron(out_data, arg.data)",
